@@ -66,7 +66,7 @@ const POOL: [&str; 32] = [
 /// A second, small pool for the permutation family: every kind of MEMBER (parameter, return member, enumerator field,
 /// field, operation) whose scoped name is also that of a definition in a nested module of another file - and, for each,
 /// a third file that USES the colliding name (without a user both orders are accepted and nothing can differ).
-const POOL_MEMBERS: [&str; 11] = [
+const POOL_MEMBERS: [&str; 14] = [
     "module A\ninterface B5 { op(P: int32) -> (R: int32, Q: bool) }\nenum B6 { W(F: int32) }\n",
     "module A::B5::op\nstruct P {}\nstruct R {}\n",
     "module Q\nstruct UP { p: A::B5::op::P, r: A::B5::op::R }\n",
@@ -78,6 +78,11 @@ const POOL_MEMBERS: [&str; 11] = [
     "module A\ninterface B3 { Y() }\n",
     "module A::B3\ntypealias Y = int32\n",
     "module Q\nstruct UY { y: A::B3::Y }\n",
+    // a deprecated type used from two files that declare the SAME module (and from a nested one): every use is
+    // reported, whichever file comes first
+    "module Z\n[deprecated(\"gone\")] struct Old2 {}\ninterface OldI2 {}\n",
+    "module Z\nstruct UA { o: Old2, p: Sequence<Old2?> }\n",
+    "module Z\nstruct UB { o: Old2 }\ninterface IB { op(x: Old2) -> Old2 }\n",
 ];
 
 /// files whose presence together makes a definition collide with a nested module of another file
@@ -181,7 +186,7 @@ impl Permutations {
 impl Family for Permutations {
     fn name(&self) -> String {
         if self.pool.len() == POOL_MEMBERS.len() {
-            return format!("permutations-member-collisions/{} subsets (2..4 files) of an 11-file pool in which a parameter, a return member, an enumerator field, a field and an operation are named like definitions in nested modules of other files, each with a file that uses the colliding name x all permutations, each compiled twice", self.subsets.len());
+            return format!("permutations-member-collisions/{} subsets (2..4 files) of a 14-file pool in which a parameter, a return member, an enumerator field, a field and an operation are named like definitions in nested modules of other files, each with a file that uses the colliding name x all permutations, each compiled twice", self.subsets.len());
         }
         format!("permutations/{} subsets of the 32-file pool x all permutations, each compiled twice", self.subsets.len())
     }
